@@ -39,6 +39,8 @@ MANIFEST = dict(
                   kind_free_text="differential: ProjectManager::generate_goto_definitions / generate_completion_proposals on a rendered temp workspace (positional queries) vs the extracted Coq scoping model (abstract queries); answers = ordered (target stem, selection range) lists / sorted label lists"),
              dict(name="E-deftree", path="harness/src/eng_deftree.rs + coq/extract/eng_deftree.ml",
                   kind_free_text="two-phase differential: real lexer+parser+ProjectManager (one-file temp workspace) go-to-definition and completion at the start / middle / end of every identifier token vs the extracted DefTree.definition / DefTree.completion on the dumped tree; parts needing another document are classified Outside by the model and skipped (counted); C10_tree_* / C11_tree_* tie these answers to the abstract model on entity_of_tree"),
+             dict(name="E-wstree", path="harness/src/eng_wstree.rs + coq/extract/eng_wstree.ml",
+                  kind_free_text="two-phase differential on WORKSPACES of files: real lexer+parser on every file (trees dumped), per file a fresh ProjectManager on the temp workspace answering go-to-definition and completion at the start / middle / end of every identifier token vs the extracted WsTree.wdefinition / WsTree.wcompletion on the dumped trees (parent linking through the class index with the cycle guard, definitions-only tables of ancestors, the `uses` loop, target = file stem + selection range; operands before a dot: self / own name / another indexed entity / a variable, parameter or field of native, indexed-class, refto or listof type); dotted chains, calls, aliases and unknown type names before a dot are left Outside; C10_ws_* / C11_ws_* tie these answers to the abstract model on map entity_of_tree ws"),
              dict(name="E-annot", path="harness/src/eng_annot.rs + coq/extract/eng_annot.ml",
                   kind_free_text="two-phase differential: real lexer+parser+AstAnnotator (full and definitions-only mode; root table and every method node's table: for_class_or_module, symbols in iter_symbols order with id / SymbolType / selection_range / range, uses) vs the extracted Coq model Annot.annotate on the dumped tree; C10_tables_from_tree* tie these tables to Scoping.root_table / method_table")],
 )
@@ -52,6 +54,7 @@ ASSUMPTIONS = [
     "no method name is declared twice in one entity (each procedure/function has one body scope)",
     "inside method m of class C a dotted chain that runs through a strict descendant D of C does not continue with a name that C declares as a method after m (what D's tables see of C at that moment depends on the history of requests: the tables of D are built on demand)",
     "the statement directly after an incomplete line `x.` starts with a keyword (the parser's empty operand extends to the next token, which swallows a cursor placed there)",
+    "workspace-level tree tie (C10_ws_*, C11_ws_*, engine wstree): one request session = a fresh ProjectManager asked about ONE file (that file annotated in the full mode, every other file definitions-only, on demand); on a parent cycle the chain of the REQUESTED file is modelled when the class header is the first child of the root of every file on the path (the order of annotation is then fixed), a USED entity on a parent cycle is left Outside; the refinement theorems assume no lineage walk comes back (ws_acyclic: with the cycle guard the code CUTS the chain, Scoping.lineage walks round until its fuel ends - C10_ws_cycle_guard), every file called like its header, pairwise distinct stems ignoring case",
     "tree-level tie (C10_tables_from_tree*, engine annot): the annotated tree is built from get_children_arc while the dump reports get_children_ref (treedump.rs flags a disagreement of the two views with attribute 99; none observed); non-Option struct fields (identifier tokens, name node of a method) are always present in a dumped tree - for other `node` values the model uses range 0; symbol payload other than id / sym_type / selection_range / range (eval_type, type_str, parent) and the parent link of the root table are not part of the tree-level model",
     "HashMap iteration order is not observed: completion labels are compared sorted; definition links are compared in the order returned",
 ]
@@ -85,6 +88,7 @@ def correspondence(ctx, broken_obligations=()):
     cov.update(S.recase_stage(ctx, PID, KINDS))
     cov["annot"] = annot_stage(ctx)
     cov["deftree"] = deftree_stage(ctx)
+    cov["wstree"] = wstree_stage(ctx)
     return cov
 
 
@@ -661,4 +665,285 @@ def deftree_stage(ctx):
                    "selection range sliced from the text is the identifier under the cursor ignoring case (`self` excepted; "
                    "options of `refTo [..]` excepted), labels pairwise distinct ignoring case, no error, no panic")
     cov["samples"] = [annot_describe(cases[len(A_FIXED)])[:300]]
+    return cov
+
+
+# =============================================================================================
+# tree-level tie of the ANSWERS on a WORKSPACE of documents: Model/WsTree.v, Proofs/WsTreeProofs.v, C10_ws_* / C11_ws_*
+# engine `wstree` (two-phase): several files -> real lexer+parser (every tree dumped, every identifier position) ->
+# per file a fresh ProjectManager on the temp workspace: go-to-definition + completion at every position of that file
+# vs the extracted WsTree.wdefinition / WsTree.wcompletion on the dumped trees
+# =============================================================================================
+import re as _re
+
+WS_HEADER = _re.compile(r"^(\s*class\s+)(\w+)(\s*\(\s*(\w+)\s*\))?", _re.I | _re.M)
+
+
+def ws_line(files, kind):
+    return ";".join("%s=%s" % (s, a_cps(t)) for s, t in files) + "@" + kind
+
+
+def ws_files(case):
+    body = case.rsplit("@", 1)[0]
+    out = []
+    for f in body.split(";"):
+        if not f:
+            continue
+        s, cps = f.split("=", 1)
+        out.append((s, "".join(chr(int(x)) for x in cps.split(".")) if cps else ""))
+    return out
+
+
+def ws_recase(rng, name):
+    return "".join(ch.upper() if rng.random() < 0.5 else ch.lower() for ch in name)
+
+
+def ws_mutations(rng, files):
+    """[(kind, files)]: the variants the scoping rules name"""
+    out = []
+    heads = {}
+    for s, t in files:
+        m = WS_HEADER.search(t)
+        if m:
+            heads[s] = (m.group(2), m.group(4))
+    children = [s for s, (n, p) in heads.items() if p]
+    parents = sorted({p.upper() for (n, p) in heads.values() if p})
+    # a parent file is missing
+    cands = [s for s, _ in files if s.upper() in parents]
+    if cands:
+        gone = rng.choice(cands)
+        out.append(("missing_parent", [(s, t) for s, t in files if s != gone]))
+    # a parent cycle: a root of the forest gets one of the classes that have a parent as its parent
+    roots = [s for s, (n, p) in heads.items() if not p]
+    if roots and children:
+        r, c = rng.choice(roots), rng.choice(children)
+        out.append(("parent_cycle", [(s, WS_HEADER.sub(lambda m: m.group(1) + m.group(2) + " (" + ws_recase(rng, c) + ")", t, count=1)
+                                      if s == r else t) for s, t in files]))
+    # two classes naming each other / a class naming itself in another letter case
+    if len(heads) >= 2:
+        a, b = rng.sample(sorted(heads), 2)
+        def sub(s, t):
+            if s == a:
+                return WS_HEADER.sub(lambda m: m.group(1) + m.group(2) + " (" + b + ")", t, count=1)
+            if s == b:
+                return WS_HEADER.sub(lambda m: m.group(1) + m.group(2) + " (" + ws_recase(rng, a) + ")", t, count=1)
+            return t
+        out.append(("parent_cycle", [(s, sub(s, t)) for s, t in files]))
+    if heads:
+        a = rng.choice(sorted(heads))
+        out.append(("self_parent", [(s, WS_HEADER.sub(lambda m: m.group(1) + m.group(2) + " (" + ws_recase(rng, m.group(2)) + ")", t, count=1)
+                                     if s == a else t) for s, t in files]))
+    # a member of a child declared again (other letter case, other kind) in its parent and in the parent's parent
+    decl = _re.compile(r"^(\w+) : (.*)$", _re.M)
+    for c in children[:2]:
+        m = decl.search(dict(files)[c])
+        p = heads[c][1]
+        tgt = [s for s, _ in files if s.upper() == p.upper()]
+        if m and tgt:
+            extra = "%s : int4\nconst %s = 7\n" % (ws_recase(rng, m.group(1)), ws_recase(rng, m.group(1)))
+            def ins(t):
+                k = t.find("\n\n")
+                return t[:k + 1] + extra + t[k + 1:] if k >= 0 else t + "\n" + extra
+            out.append(("duplicate_across_ancestors", [(s, ins(t) if s == tgt[0] else t) for s, t in files]))
+            break
+    # `uses` of an unknown entity first
+    usesre = _re.compile(r"^(uses\s+)(.*)$", _re.I | _re.M)
+    withuses = [s for s, t in files if usesre.search(t)]
+    if withuses:
+        a = rng.choice(withuses)
+        out.append(("uses_unknown_first", [(s, usesre.sub(lambda m: m.group(1) + "aNowhere, " + m.group(2), t, count=1) if s == a else t)
+                                           for s, t in files]))
+    elif heads:
+        a = rng.choice(sorted(heads))
+        other = [s for s in heads if s != a]
+        def addu(t):
+            k = t.find("\n")
+            return t[:k + 1] + "uses aNowhere" + (", " + rng.choice(other) if other else "") + "\n" + t[k + 1:]
+        out.append(("uses_unknown_first", [(s, addu(t) if s == a else t) for s, t in files]))
+    # names differing in case only: a second declaration of a member in another letter case, next to the first
+    for s0, t0 in files:
+        m = decl.search(t0)
+        if m:
+            t1 = t0[:m.end()] + "\n" + m.group(1).swapcase() + " : cstring" + t0[m.end():]
+            out.append(("case_only_names", [(s, t1 if s == s0 else t) for s, t in files]))
+            break
+    # the file is not called like its class
+    if heads:
+        a = rng.choice(sorted(heads))
+        if not any(s.upper() == (a + "x").upper() for s, _ in files):
+            out.append(("stem_is_not_header_name", [((s + "x") if s == a else s, t) for s, t in files]))
+    return out
+
+
+WS_FIXED = [
+    [("aChild", "class aChild (aParent)\nuses aLib\nfc : int4\nproc Run(p : int4)\n var l : int4\n l = p + fc + fp + cLib + cP\n self.fp = l\n self.Run(l)\n self.Base\n zz = 1\nendproc\nproc Base\nendproc\n"),
+     ("aParent", "class aParent\nconst cP = 2\nfp : int4\nproc Base\n fp = 1\nendproc\n"),
+     ("aLib", "module aLib\nconst cLib = 1\nfunc LibF(x : int4) return int4\n return x\nendfunc\n")],
+    [("aA", "class aA (aB)\nfa : int4\nproc Run\n fa = fb + fc\n self.fb = 1\nendproc\n"),
+     ("aB", "class aB (aC)\nfb : int4\nproc RunB\n fa = fb + fc\nendproc\n"),
+     ("aC", "class aC (aB)\nfc : int4\nproc RunC\n fa = fb + fc\n self.\nendproc\n")],
+    [("aA", "class aA (AA)\nfa : int4\nproc Run\n fa = 1\nendproc\n")],
+    [("aA", "class aA (aB)\nuses aU\nproc Run\n x = cU + fa + fb\nendproc\n"),
+     ("aB", "class aB (aA)\nfb : int4\n"),
+     ("aU", "class aU (aV)\nconst cU = 1\n"),
+     ("aV", "class aV (aU)\nfa : int4\n")],
+]
+
+
+def ws_cases(ctx):
+    rng = random.Random(ctx.seed * 7919 + 5)
+    cases, hist = [], {}
+
+    def add(kind, files):
+        if not files or len({s.upper() for s, _ in files}) != len(files):
+            return
+        cases.append(ws_line(files, kind))
+        hist[kind] = hist.get(kind, 0) + 1
+
+    for f in WS_FIXED:
+        add("fixed", f)
+    repo = []
+    for f in sorted(glob.glob("/repo/test/workspace/*.god")):
+        t = open(f, "rb").read().decode("utf-8", errors="replace")
+        if len(t) < 6000:
+            repo.append((os.path.splitext(os.path.basename(f))[0], t))
+    add("repo_test_workspace", repo)
+    n = 40 if ctx.quick else 400
+    for _ in range(n):
+        case, _h = S.gen_case(rng, "DC")
+        files = list(case.files)
+        add("generated", files)
+        for kind, fs in ws_mutations(rng, files):
+            if rng.random() < (0.5 if ctx.quick else 0.8):
+                add(kind, fs)
+    for kind, fs in ws_mutations(rng, repo):
+        add("repo_" + kind, fs)
+    return cases, hist
+
+
+WS_POS = {}
+
+
+def ws_oracle(case, obs):
+    """on the implementation's answers alone: every definition link's selection range, sliced from the TARGET file's
+       text, is the identifier under the cursor ignoring case (`self` excepted; options of `refTo [..]` excepted); the
+       target file exists; completion labels are pairwise distinct ignoring case; nothing panics, errs or hangs"""
+    if obs.startswith("HANG"):
+        return "the requests did not return within 120 s"
+    if obs == "" or obs.startswith("X"):
+        return None
+    if obs.startswith("PANIC") or obs == "CRASH":
+        return "the request did not return: %s" % obs[:100]
+    files = ws_files(case)
+    texts = {s: t.split("\n") for s, t in files}
+    poss = WS_POS.get(case)
+    per_file = obs.split("|")
+    for fi, answers in enumerate(per_file):
+        if fi >= len(files):
+            break
+        stem = files[fi][0]
+        lines = texts[stem]
+        for k, a in enumerate(answers.split(";") if answers else []):
+            if "PANIC" in a or "ERR" in a:
+                return "file %s answer %d: %s" % (stem, k, a[:80])
+            d, c = a[1:].split("C", 1)
+            if c not in ("-", ""):
+                labs = ["".join(chr(int(x)) for x in lab.split(".")) if lab != "~" else "" for lab in c.split(",")]
+                up = [x.upper() for x in labs]
+                if len(set(up)) != len(up):
+                    return "file %s answer %d: completion labels not distinct ignoring case: %r" % (stem, k, labs)
+            if d not in ("-", "") and poss is not None and fi < len(poss) and k < len(poss[fi]):
+                l, col = poss[fi][k]
+                ident = dt_ident_at(lines, l, col)
+                for lk in d.split(","):
+                    parts = lk.split("/")
+                    tstem = "".join(chr(int(x)) for x in parts[0].split(".")) if parts[0] else ""
+                    if tstem not in texts:
+                        return "file %s answer %d: link into a file that does not exist: %r" % (stem, k, tstem)
+                    tl = texts[tstem]
+                    sel = [int(x) for x in parts[1].split(":")]
+                    if sel[0] != sel[2] or sel[0] >= len(tl):
+                        return "file %s answer %d: selection range %r not on one existing line of %s" % (stem, k, sel, tstem)
+                    got = tl[sel[0]][sel[1]:sel[3]]
+                    if "#" in got:
+                        got = "".join(got.split())
+                    if got.upper() != ident.upper() and ident.upper() != "SELF":
+                        if not dt_in_brackets(lines, l, col):
+                            return "file %s at %d:%d on %r: the link selects %r in %s" % (stem, l, col, ident, got, tstem)
+    return None
+
+
+def ws_describe(case):
+    return {"kind": case.rsplit("@", 1)[1], "files": {s: t[:800] for s, t in ws_files(case)}}
+
+
+def ws_shrinker(case):
+    """drop one file; drop one line of one file"""
+    kind = case.rsplit("@", 1)[1]
+    files = ws_files(case)
+    out = []
+    for i in range(len(files)):
+        if len(files) > 1:
+            out.append(ws_line(files[:i] + files[i + 1:], kind))
+    for i, (s, t) in enumerate(files):
+        ls = t.split("\n")
+        for j in range(len(ls)):
+            out.append(ws_line(files[:i] + [(s, "\n".join(ls[:j] + ls[j + 1:]))] + files[i + 1:], kind))
+    return out
+
+
+def wstree_stage(ctx):
+    cases, hist = ws_cases(ctx)
+    hb = diff.Engines.harness()
+    raw = core.run_lines(hb, "wstree", cases)
+    WS_POS.clear()
+    npos = nfiles = 0
+    for c, o in zip(cases, raw):
+        if "#" in o and not o.startswith("X") and not o.startswith("HANG"):
+            head = o.split("#", 1)[0].split("@")
+            if len(head) > 2:
+                pl = [[tuple(int(x) for x in p.split(":")) for p in ps.split(",")] if ps else [] for ps in head[2].split("|")]
+                WS_POS[c] = pl
+                npos += sum(len(p) for p in pl)
+                nfiles += len(pl)
+    cov = diff.differential(ctx, "wstree", cases, split=dt_split, oracle=ws_oracle, canon=dt_canon, shrinker=ws_shrinker,
+                            nontrivial=lambda c: sum(len(p) for p in WS_POS.get(c, ())) >= 30, describe=ws_describe)
+    mod = core.run_lines(diff.Engines.model(), "wstree", raw)
+    stats = {}
+    for c, o, m in zip(cases, raw, mod):
+        kind = c.rsplit("@", 1)[1]
+        st = stats.setdefault(kind, {"definition_modelled": 0, "definition_outside": 0, "completion_modelled": 0,
+                                      "completion_outside": 0, "definition_nonempty": 0, "definition_into_another_file": 0})
+        stems = o.split("#", 1)[0].split("@")[1].split("|") if "#" in o and o.count("@") >= 2 else []
+        for fi, per in enumerate(m.split("|") if m else []):
+            own = stems[fi] if fi < len(stems) else ""
+            for a in (per.split(";") if per else []):
+                d, cc = a[1:].split("C", 1)
+                st["definition_outside" if d.startswith("?") else "definition_modelled"] += 1
+                st["completion_outside" if cc.startswith("?") else "completion_modelled"] += 1
+                if not d.startswith("?") and d != "-":
+                    st["definition_nonempty"] += 1
+                    if any(lk.split("/")[0] != own for lk in d.split(",")):
+                        st["definition_into_another_file"] += 1
+    cov["workspaces"] = len(cases)
+    cov["files"] = nfiles
+    cov["positions"] = npos
+    cov["requests"] = 2 * npos
+    cov["input_histogram"] = hist
+    cov["modelled_vs_outside"] = stats
+    cov["rule"] = ("workspaces of the abstract-workspace generator of checks/sem_common.py rendered to files by its renderer (forests "
+                   "to depth 4, modules, uses, overriding in other letter case, aliases, dotted chains), /repo/test/workspace/*.god as "
+                   "one workspace, hand-written corner cases, and text-level mutants of all of them: a parent file removed, a root "
+                   "class given one of its descendants as parent / two classes naming each other (in another letter case), a class "
+                   "naming itself in another letter case, a child's member declared again (other case, other kind) in its parent, "
+                   "an unknown entity first in `uses`, two declarations differing in letter case only, a file not called like its "
+                   "class. Every file lexed and parsed by the real lexer and parser; for EVERY file a fresh ProjectManager on the temp "
+                   "workspace answers go-to-definition and completion at the start, middle and end of EVERY identifier token of that "
+                   "file; compared with WsTree.wdefinition / WsTree.wcompletion on the dumped trees (links = target file stem, "
+                   "selection range, range in the order returned; labels in the order returned). Parts the model classifies Outside "
+                   "(the operand before a dot is a dotted chain, a call, or has an alias / unknown declared type; a used entity on a parent cycle) are skipped and counted. "
+                   "Oracle (implementation alone): each link's selection range sliced from the TARGET file's text is the identifier "
+                   "under the cursor ignoring case (`self`, options of `refTo [..]` excepted), labels pairwise distinct ignoring "
+                   "case, no error, no panic, no hang")
+    cov["samples"] = [ws_describe(cases[0])]
     return cov
